@@ -37,6 +37,7 @@ type Container struct {
 // Behaviour of run-and-wait / copy calls, set by drivers.
 type Behaviour struct {
 	ExecErr, CodeErr            bool
+	ExecBlock                   chan struct{} // Execute waits for it (a command that keeps running)
 	LogsErr, AttachErr, WaitErr bool
 	ExitCode                    int64
 	Output                      string
@@ -358,6 +359,12 @@ func (f *fakeEngine) Execute(ctx context.Context, id string, _ *enginetypes.Exec
 	})
 	if err != nil {
 		return "", nil, nil, nil, err
+	}
+	f.es.mu.Lock()
+	blk := f.es.B.ExecBlock
+	f.es.mu.Unlock()
+	if blk != nil {
+		<-blk
 	}
 	return "exec-" + id[:8], io.NopCloser(bytes.NewBufferString(out)), io.NopCloser(bytes.NewBufferString("")), nopWC{io.Discard}, nil
 }
